@@ -24,7 +24,7 @@ def run_demo():
         return good, p.stdout[-600:]
     p = sh("cargo test --offline " + " ".join(targs) + " 2>&1 | tail -40")
     os.remove(os.path.join(WT, dest, demo))
-    ok = re.search(r"test result: ok", p.stdout) is not None and "FAILED" not in p.stdout and "error" not in p.stdout.lower().split("test result")[0][-0:] 
+    ok = re.search(r"test result: ok", p.stdout) is not None and "FAILED" not in p.stdout and not re.search(r"^error(\[|:)", p.stdout, re.M)
     failed = "FAILED" in p.stdout or "panicked" in p.stdout
     return ok and not failed, p.stdout[-600:]
 sh("git checkout -- . && git clean -fdq -e target")
